@@ -35,9 +35,13 @@ LEVEL_TEXT = (
     'per-method path counting of operation elements. Decides determinism and '
     'the name-agreement clause for every generator function; does not '
     'render documents.')
-LEVEL_NOTE = ('Trusted: insertion-ordered dicts; toposort2 sorts tiers by '
-              'repr (ties between same-repr classes are not analysed).')
-TECHNIQUE = 'set-typed iteration analysis + naming-expression agreement + path counting (ast)'
+LEVEL_NOTE = ('Trusted: insertion-ordered dicts. Keyed sorts over sets whose '
+              'key does not separate distinct classes (repr) are reported; '
+              'the binding-namespace decision list is evaluated over the '
+              'folded protocol type sets.')
+TECHNIQUE = ('set-typed iteration analysis + naming-expression agreement + '
+             'path counting + finite-domain evaluation of constant tables '
+             '(ast)')
 
 WSDL = 'spyne.interface.wsdl.wsdl11:Wsdl11'
 
